@@ -115,6 +115,7 @@ type Contract struct {
 	Results     []string
 	Requires    []Clause
 	Ensures     []Clause
+	Defines     []Clause // ghost-state definitions (assumed at call sites, not checked in the body)
 	Modifies    []ModEntry
 	HasMod      bool
 	Loops       map[int]*LoopSpec
@@ -221,7 +222,7 @@ type tok struct {
 }
 
 var clauseKW = map[string]bool{
-	"requires": true, "ensures": true, "modifies": true, "loop": true, "invariant": true, "decreases": true,
+	"requires": true, "ensures": true, "defines": true, "modifies": true, "loop": true, "invariant": true, "decreases": true,
 	"property": true, "wraps": true, "func": true, "pred": true, "pure": true, "trusted": true, "inline": true,
 	"frame": true, "callers": true, "type": true, "package": true, "nosafety": true, "note": true, "recursion": true, "ghost": true, "argpolicy": true, "ufunc": true, "abstract": true, "axiom": true, "purecalls": true, "nocallbacks": true, "callsite": true, "closure": true, "callback": true,
 }
@@ -665,6 +666,12 @@ func parseSpecFile(path string, defaultPkg string) (sf *SpecFile, err error) {
 		case "ensures":
 			label, e, line := p.clauseExpr()
 			cur.Ensures = append(cur.Ensures, Clause{mkLabel(cur, "ensures", label), e, line, e.String()})
+		case "defines":
+			// defines <expr over ghost fields>: how the function moves ghost state. Ghost state has no code: the
+			// clause is its definition (assumed at call sites, nothing to check in the body); the ghost field must be
+			// listed under modifies
+			label, e, line := p.clauseExpr()
+			cur.Defines = append(cur.Defines, Clause{mkLabel(cur, "defines", label), e, line, e.String()})
 		case "modifies":
 			cur.HasMod = true
 			for !p.atClauseStart() {
